@@ -591,13 +591,16 @@ package goat
 
 // writer goroutine of a connection: the only writer on the transport, under the connection context
 //@ func goat.(*handler).serve$2
+//@   nopanic[C12.nopanic C10.nopanic]
+//@   captures h != nil && objinv(h)
 //@   atcall[C10.writer_stops_with_connection C06.writer_forwards_unchanged] (types.RpcReadWriter).Write : arg1 == h.ctx && arg2 == rpc
 
 // unary worker of a connection: every blocking step has a context escape, and handlers run under the
 // connection-scoped child of the caller's context that serve cancels on return
 //@ func goat.(*handler).serve$3
+//@   nopanic[C12.nopanic C10.nopanic]
 //@   ctxaware[C10.unary_worker_escapes]
-//@   captures unaryClientCtx != nil
+//@   captures unaryClientCtx != nil && unaryRpcCtx != nil && h != nil && objinv(h)
 //@   atcall[C10.unary_handler_ctx_ends_with_connection] goat.(*handler).processUnaryRpc : arg1 == unaryClientCtx
 
 // ---------------------------------------------------------------------------------
